@@ -71,7 +71,14 @@ let handle (i : string list) (o : string list) =
        let accepts = filedesc_accepts c in
        if List.mem "REFUSED" rest then (if accepts then verdict_diff "model-accepts" else verdict_ok false)
        else if List.mem "ENCERR" rest then verdict_diff "ENCERR"
-       else if not accepts then verdict_diff "model-refuses"
+       else if not accepts then begin
+         (* the implementation transmits an object the model refuses: judge what it put on the wire *)
+         let toks = List.filter (fun t -> String.length t > 1 && t.[0] = 'P' && t.[1] = ':') rest in
+         let impl_pkts = List.map (fun t -> canon_pkt (parse_pkt () t)) toks in
+         let endtok = List.nth rest (List.length rest - 1) in
+         if mode <> "c20" && not ((endtok = "NONE") && p_C08_transfer c content (first_true 0 forces) impl_pkts)
+         then verdict_both "P_C08_transfer" "model-refuses" else verdict_diff "model-refuses"
+       end
        else begin
          let toks = List.filter (fun t -> String.length t > 1 && t.[0] = 'P' && t.[1] = ':') rest in
          let endtok = List.nth rest (List.length rest - 1) in
